@@ -51,6 +51,15 @@ def generate(rng, tier):
     t = gen_tree.gen_crate(rng, base="c", max_files=5, feats=feats, body=body)
     files = dict(t.files)
     srcs = list(t.reach)
+    respelled = []
+    leaves = [f for f in srcs[1:] if not any(d[0] == f for d in t.decls)]
+    if rng.chance(8) and leaves:
+        # the same (leaf) file declared a second time under another spelling (F6)
+        leaf = rng.choice(leaves)
+        rootdir = os.path.dirname(t.root)
+        relp = os.path.relpath(leaf, rootdir)
+        files[t.root] = '#[path = "./../%s/%s"]\nmod respelled_twin;\n' % (os.path.basename(rootdir), relp) + files[t.root]
+        respelled = [leaf]
     # line-ending / BOM variants: the original *bytes* must survive, not a normalised text
     for f in srcs:
         k = rng.below(100)
@@ -85,7 +94,7 @@ def generate(rng, tier):
         "cwd": cwd,
         "root_arg": root_arg,
         "extra_args": extra_args,
-        "hashseed": rng.below(1 << 32),
+        "hashseed": rng.below(1 << 32), "respelled": respelled,
     }
 
 
@@ -149,6 +158,9 @@ def execute(case):
         collide = _collisions(R)
         if collide:
             v.probe("stem-collision")
+        respelled = set(case.get("respelled") or [])
+        if respelled:
+            v.probe("file-declared-twice-respelled")
 
         def check(tag, res, snap0, success_expected, plan):
             """invariants over the directory left behind"""
@@ -158,7 +170,7 @@ def execute(case):
             for f in srcs:
                 cur = core.read_rel(sc.root, f)
                 bk = core.read_rel(sc.root, _stem(f) + ".bk")
-                suffix = "|stem-collision" if f in collide else ""
+                suffix = "|stem-collision" if f in collide else "|respelled-twice" if f in respelled else ""
                 if cur != orig[f] and bk != orig[f]:
                     v.add("C20:original-lost" + suffix, "%s: neither %s nor its .bk holds the original; %s" % (tag, f, det), file=f)
                 if cur is not None and cur not in (orig[f], fmt[f]):
@@ -172,7 +184,7 @@ def execute(case):
                 if res.exit != 0:
                     v.add("C20:unexpected-failure", "%s: exit %s, stderr=%r" % (det, res.status(), core.text_of(res.stderr)[:200]))
                 for f in R:
-                    suffix = "|stem-collision" if f in collide else ""
+                    suffix = "|stem-collision" if f in collide else "|respelled-twice" if f in respelled else ""
                     if core.read_rel(sc.root, f) != fmt[f]:
                         v.add("C20:success-file-not-formatted" + suffix, "%s: %s" % (det, f), file=f)
                     if core.read_rel(sc.root, _stem(f) + ".bk") != orig[f]:
